@@ -1519,7 +1519,19 @@ func qInstant(n int64) time.Time {
 }
 
 // qObsReport executes a report datasource and prints the canonical observation.
-func qObsReport(ds report.DataSource, b *qBuilder, mask bool, from, to int64) (obs string) {
+// qObsReport executes the datasource OBJECT twice (plan + collect each time): a query is a value that can be executed any
+// number of times with the same answer; when the second execution answers differently both answers are reported (which no
+// model output and no spec predicate accepts).
+func qObsReport(ds report.DataSource, b *qBuilder, mask bool, from, to int64) string {
+	first := qObsReportOnce(ds, b, mask, from, to)
+	if second := qObsReportOnce(ds, b, mask, from, to); second != first {
+		return first + " SECOND-EXECUTION-DIFFERS " + second
+	}
+	return first
+}
+
+func qObsReportOnce(ds report.DataSource, b *qBuilder, mask bool, from, to int64) (obs string) {
+	base := b.pulled()
 	defer func() {
 		if r := recover(); r != nil {
 			qDebugPanic(r)
@@ -1529,7 +1541,7 @@ func qObsReport(ds report.DataSource, b *qBuilder, mask bool, from, to int64) (o
 	ctx, cancel := context.WithTimeout(context.Background(), qExecTimeout)
 	defer cancel()
 	res, err := ds.Execute(ctx, qInstant(from), qInstant(to))
-	pre := b.pulled()
+	pre := b.pulled() - base
 	if err != nil {
 		return fmt.Sprintf("reject %s prepull=%d", qClassify(err), pre)
 	}
@@ -1556,7 +1568,16 @@ func qObsReport(ds report.DataSource, b *qBuilder, mask bool, from, to int64) (o
 }
 
 // qObsDs executes a datasource-package datasource and prints the canonical observation.
-func qObsDs(ds datasource.DataSource, b *qBuilder, mask bool, from, to int64) (obs string) {
+func qObsDs(ds datasource.DataSource, b *qBuilder, mask bool, from, to int64) string {
+	first := qObsDsOnce(ds, b, mask, from, to)
+	if second := qObsDsOnce(ds, b, mask, from, to); second != first {
+		return first + " SECOND-EXECUTION-DIFFERS " + second
+	}
+	return first
+}
+
+func qObsDsOnce(ds datasource.DataSource, b *qBuilder, mask bool, from, to int64) (obs string) {
+	base := b.pulled()
 	defer func() {
 		if r := recover(); r != nil {
 			qDebugPanic(r)
@@ -1566,7 +1587,7 @@ func qObsDs(ds datasource.DataSource, b *qBuilder, mask bool, from, to int64) (o
 	ctx, cancel := context.WithTimeout(context.Background(), qExecTimeout)
 	defer cancel()
 	res, err := ds.Execute(ctx, qInstant(from), qInstant(to))
-	pre := b.pulled()
+	pre := b.pulled() - base
 	if err != nil {
 		return fmt.Sprintf("reject %s prepull=%d", qClassify(err), pre)
 	}
